@@ -188,6 +188,7 @@ void run(size_t idx) {
 		ApiOpts ao;
 		ao.segments = idx % 2 == 0;
 		ao.partitions = idx % 3 == 0;
+		ao.texturing = (idx / 6) % 2 == 1;
 		ApiModel m = buildApiModel(seed, (int)idx, &ao);
 		if (!m.ok) return;
 		NifFile cp(*m.nif);
